@@ -1,0 +1,45 @@
+//go:build verif
+
+// Contracts for the storage-backed resource (DbResource): every lookup reads
+// from a store that is safe (read-only types sealed) under the data type that
+// belongs to the lookup, with the caller's context (which carries the
+// session's language, C18). Comments only; compiled only under the `verif` tag.
+
+package resource
+
+//@ pred resOk(g) = g != nil && g.db != nil
+
+// the store is only read when it is safe (mustSafe panics otherwise: deliberate)
+//@ func (*DbResource).fn
+//@   serves C10
+//@   requires resOk(g)
+//@   callsite (db.Db).Get assert[C10] @safe dbSafeG(refOf(g.db))
+//@   callsite (db.Db).Get assert[C10,C18] @ctx arg1 == ctx
+//@   modifies nothing
+
+//@ func (*DbResource).sfn
+//@   serves C10, C18
+//@   requires resOk(g)
+//@   callsite (*DbResource).fn assert[C10,C18] @ctx arg1 == ctx && arg2 == sym
+//@   modifies nothing
+
+//@ func (*DbResource).DbGetTemplate
+//@   serves C10, C18
+//@   requires resOk(g)
+//@   modifies dbPfx[refOf(g.db)]
+//@   callsite (*DbResource).sfn assert[C10,C18] @typed dbPfx(refOf(g.db)) == db.DATATYPE_TEMPLATE && arg1 == ctx && arg2 == sym
+//@   ensures[C10] @disabled !bit(g.typs, 2) ==> result1 != nil
+
+//@ func (*DbResource).DbGetMenu
+//@   serves C10, C18
+//@   requires resOk(g)
+//@   modifies dbPfx[refOf(g.db)]
+//@   callsite (*DbResource).sfn assert[C10,C18] @typed dbPfx(refOf(g.db)) == db.DATATYPE_MENU && arg1 == ctx && arg2 == sym + "_menu"
+//@   ensures[C10] @disabled !bit(g.typs, 1) ==> result1 != nil
+
+//@ func (*DbResource).DbGetCode
+//@   serves C10, C18
+//@   requires resOk(g)
+//@   modifies dbPfx[refOf(g.db)]
+//@   callsite (*DbResource).fn assert[C10,C18] @typed dbPfx(refOf(g.db)) == db.DATATYPE_BIN && arg1 == ctx && arg2 == sym
+//@   ensures[C10] @disabled !bit(g.typs, 0) ==> result1 != nil
